@@ -1058,6 +1058,6 @@ def replay(h, recipe):
 
 def checks(h):
     _init()
-    unit = h.scale(14, 160)
+    unit = h.scale(12, 150)
     for salt, (cname, strat, weight) in enumerate(campaigns()):
         h.hyp(cname, strat, lambda r, cname=cname: run_case(h, r, cname), unit * weight, salt + 1)
